@@ -632,6 +632,139 @@ Proof.
   intro H. apply one_context_same_meaning; [exact (plan_log_is_root _ _ _ H)|exact (plan_log_nbw _ _ _ H)].
 Qed.
 
+(* ---------- metric queries without by / without ---------- *)
+Definition bw_free (a b : option by_without) : bool := match a, b with None, None => true | _, _ => false end.
+Definition lra_bf (l : lra) : bool := bw_free (lra_prefix l) (lra_suffix l).
+Definition agg_bf (a : aggop) : bool := bw_free (agg_prefix a) (agg_suffix a) && lra_bf (agg_lra a).
+Definition q_bf (q : quantile) : bool := bw_free (q_prefix q) (q_suffix q).
+Definition script_by_free (s : script) : bool :=
+  match s with
+  | SLra l => lra_bf l
+  | SAgg a => agg_bf a
+  | STopK t => match tk_arg t with TKLra l => lra_bf l | TKAgg a => agg_bf a | TKQuantile q => q_bf q end
+  | SQuantile q => q_bf q
+  | SLog _ | SMacros => true
+  end.
+Definition mfn_bf (f : mfn) : bool :=
+  match f with
+  | MUnwrapFn l => lra_bf l
+  | MAgg a => bw_free (agg_prefix a) (agg_suffix a)
+  | MQuantile q => q_bf q
+  | MLra _ | MTopK _ | MCmp _ => true
+  end.
+Lemma plan_bw_free a b u cur : bw_free a b = true -> plan_bw a b u cur = cur.
+Proof. destruct a, b; cbn; intro H; try discriminate H; reflexivity. Qed.
+Lemma plan_cmp_nbw c cur : no_by_without cur = true -> no_by_without (plan_cmp c cur) = true.
+Proof. destruct c; exact (fun H => H). Qed.
+Lemma apply_mfn_nbw lj li f cur p :
+  mfn_bf f = true -> no_by_without cur = true -> apply_mfn lj li f cur = Some p -> no_by_without p = true.
+Proof.
+  intros Hf Hc H. destruct f; cbn [apply_mfn mfn_bf] in *.
+  - inversion H; subst. exact Hc.
+  - rewrite (plan_bw_free _ _ _ _ Hf) in H. inversion H; subst. exact Hc.
+  - rewrite (plan_bw_free _ _ _ _ Hf) in H. inversion H; subst. exact Hc.
+  - unfold plan_topk in H. destruct (Z.ltb (tk_len t) 0); [discriminate H|]. inversion H; subst. exact Hc.
+  - unfold q_bf in Hf. rewrite (plan_bw_free _ _ _ _ Hf) in H. inversion H; subst. exact Hc.
+  - inversion H; subst. exact Hc.
+Qed.
+Lemma apply_mfns_nbw lj li fs : forall cur p,
+  forallb mfn_bf fs = true -> no_by_without cur = true -> apply_mfns lj li fs cur = Some p -> no_by_without p = true.
+Proof.
+  induction fs as [|f fs IH]; intros cur p Hf Hc H; cbn [apply_mfns forallb] in *.
+  - inversion H; subst. exact Hc.
+  - apply andb_prop in Hf. destruct Hf as [Hf1 Hf2].
+    destruct (apply_mfn lj li f cur) as [c1|] eqn:E1; [|discriminate H].
+    apply (IH c1 p Hf2 (apply_mfn_nbw _ _ _ _ _ Hf1 Hc E1) H).
+Qed.
+Lemma fo_cmp_bf c : forallb mfn_bf (fo_cmp c) = true. Proof. destruct c; reflexivity. Qed.
+Lemma fo_lra_bf l acc lidx : lra_bf l = true -> forallb mfn_bf acc = true -> forallb mfn_bf (fst (fo_lra l acc lidx)) = true.
+Proof.
+  intros Hl Ha. unfold fo_lra. destruct (last_is_unwrap _); cbn [fst]; rewrite !forallb_app, Ha, fo_cmp_bf; cbn [forallb mfn_bf]; rewrite ?Hl; reflexivity.
+Qed.
+Lemma fo_agg_bf a acc lidx : agg_bf a = true -> forallb mfn_bf acc = true -> forallb mfn_bf (fst (fo_agg a acc lidx)) = true.
+Proof.
+  intros Ha Hacc. apply andb_prop in Ha. destruct Ha as [Ha1 Ha2]. unfold fo_agg.
+  pose proof (fo_lra_bf (agg_lra a) acc lidx Ha2 Hacc) as H1.
+  destruct (fo_lra (agg_lra a) acc lidx) as [acc1 l1]. cbn [fst] in *.
+  rewrite !forallb_app, H1, fo_cmp_bf. cbn [forallb mfn_bf]. rewrite Ha1. reflexivity.
+Qed.
+Lemma fo_quantile_bf q acc lidx : q_bf q = true -> forallb mfn_bf acc = true -> forallb mfn_bf (fst (fo_quantile q acc lidx)) = true.
+Proof. intros Hq Ha. unfold fo_quantile. cbn [fst]. rewrite !forallb_app, Ha, fo_cmp_bf. cbn [forallb mfn_bf]. rewrite Hq. reflexivity. Qed.
+Lemma function_order_bf s : script_by_free s = true -> forallb mfn_bf (fst (function_order s)) = true.
+Proof.
+  destruct s; cbn [script_by_free function_order]; intro H; try reflexivity.
+  - apply fo_lra_bf; [exact H|reflexivity].
+  - apply fo_agg_bf; [exact H|reflexivity].
+  - destruct (tk_arg t) as [l|a|q].
+    + pose proof (fo_lra_bf l [] None H eq_refl) as H1. destruct (fo_lra l [] None) as [acc l1]. cbn [fst] in *.
+      rewrite !forallb_app, H1, fo_cmp_bf. reflexivity.
+    + pose proof (fo_agg_bf a [] None H eq_refl) as H1. destruct (fo_agg a [] None) as [acc l1]. cbn [fst] in *.
+      rewrite !forallb_app, H1, fo_cmp_bf. reflexivity.
+    + pose proof (fo_quantile_bf q [] None H eq_refl) as H1. destruct (fo_quantile q [] None) as [acc l1]. cbn [fst] in *.
+      rewrite !forallb_app, H1, fo_cmp_bf. reflexivity.
+  - apply fo_quantile_bf; [exact H|reflexivity].
+Qed.
+Lemma m15_lra_nbw fp l : no_by_without fp = true -> no_by_without (m15_lra fp l) = true.
+Proof. intro H. unfold m15_lra. apply plan_cmp_nbw. cbn [no_by_without]. rewrite H. reflexivity. Qed.
+Lemma m15_agg_nbw fp a : agg_bf a = true -> no_by_without fp = true -> no_by_without (fst (m15_agg fp a)) = true.
+Proof.
+  intros Ha H. apply andb_prop in Ha. destruct Ha as [Ha1 _]. unfold m15_agg. cbn [fst]. apply plan_cmp_nbw. cbn [no_by_without].
+  rewrite (plan_bw_free _ _ _ _ Ha1). apply m15_lra_nbw. exact H.
+Qed.
+Lemma plan_m15_nbw fp s p wl : script_by_free s = true -> no_by_without fp = true -> plan_m15 fp s = Some (p, wl) -> no_by_without p = true.
+Proof.
+  intros Hs Hfp H. destruct s; cbn [plan_m15 script_by_free] in *; try discriminate H.
+  - inversion H; subst. apply m15_lra_nbw. exact Hfp.
+  - pose proof (m15_agg_nbw fp a Hs Hfp) as H1. destruct (m15_agg fp a) as [p1 w1]. inversion H; subst. exact H1.
+  - destruct (tk_arg t) as [l|a|q]; [| |discriminate H].
+    + cbn in H. unfold plan_topk in H. destruct (Z.ltb (tk_len t) 0); [discriminate H|]. inversion H; subst.
+      apply plan_cmp_nbw. cbn [no_by_without]. apply m15_lra_nbw. exact Hfp.
+    + pose proof (m15_agg_nbw fp a Hs Hfp) as H1. destruct (m15_agg fp a) as [p1 w1]. cbn [fst] in H1.
+      unfold plan_topk in H. destruct (Z.ltb (tk_len t) 0); [discriminate H|]. inversion H; subst.
+      apply plan_cmp_nbw. cbn [no_by_without]. exact H1.
+Qed.
+Lemma plan_metric_nbw s fin p : script_by_free s = true -> plan_metric s fin = Some p -> no_by_without p = true.
+Proof.
+  intros Hs H. unfold plan_metric in H.
+  destruct (analyze_m15 s).
+  - cbn [bind] in H.
+    destruct (plan_m15 _ s) as [[p0 wl]|] eqn:E0; cbn [bind] in H; [|discriminate H].
+    apply (plan_m15_nbw _ _ _ _ Hs (plan_ts_nbw _ _ _)) in E0.
+    inversion H; subst. cbn [negb andb no_by_without]. destruct wl; cbn [negb andb no_by_without]; rewrite ?E0, ?plan_ts_nbw; reflexivity.
+  - cbn [bind] in H.
+    match type of H with context [plan_spl ?a ?b ?c ?d ?e ?fp ?cur] =>
+      destruct (plan_spl a b c d e fp cur) as [spl|] eqn:E1; cbn [bind] in H; [|discriminate H];
+      apply (plan_spl_nbw fp e (plan_ts_nbw _ _ _)) in E1; [|cbn [no_by_without]; rewrite plan_ts_nbw; reflexivity]
+    end.
+    pose proof (function_order_bf s Hs) as Hfo.
+    destruct (function_order s) as [order lidx]. cbn [fst] in Hfo.
+    match type of H with context [apply_mfns ?a ?b order spl] =>
+      destruct (apply_mfns a b order spl) as [p0|] eqn:E2; cbn [bind] in H; [|discriminate H];
+      apply (apply_mfns_nbw _ _ _ _ _ Hfo E1) in E2
+    end.
+    inversion H; subst. cbn [no_by_without].
+    match goal with |- context [if ?b then _ else _] => destruct b end; cbn [no_by_without]; rewrite ?E2, ?plan_ts_nbw; reflexivity.
+Qed.
+Lemma plan_script_nbw s fin p : script_by_free s = true -> plan_script s fin = Some p -> no_by_without p = true.
+Proof.
+  intros Hs H. destruct s; cbn [plan_script] in H; try discriminate H;
+    first [exact (plan_log_nbw _ _ _ H) | exact (plan_metric_nbw _ _ _ Hs H)].
+Qed.
+(* every log query and every metric query without by / without *)
+Lemma script_one_context_same_meaning re_match parse_float json_get hash_labels tie db s fin p :
+  script_by_free s = true -> plan_script s fin = Some p ->
+  forall k c st, map (meaning re_match parse_float json_get hash_labels tie db) (run_plan_sel k p c st) =
+                 map (meaning re_match parse_float json_get hash_labels tie db) (fresh_seq_sel k p c).
+Proof.
+  intros Hs H. apply one_context_same_meaning; [exact (plan_script_is_root _ _ _ H)|exact (plan_script_nbw _ _ _ Hs H)].
+Qed.
+Lemma script_one_context_same_erasure s fin p :
+  script_by_free s = true -> plan_script s fin = Some p ->
+  forall k c st, erase_all (run_plan_sel k p c st) = erase_all (fresh_seq_sel k p c).
+Proof.
+  intros Hs H. apply one_context_same_erasure; [exact (plan_script_is_root _ _ _ H)|exact (plan_script_nbw _ _ _ Hs H)].
+Qed.
+
 (* a metric plan without by/without is covered too; one with it is not (its aliases name tables and qualify columns) *)
 Definition metric_by_free_example : script :=
   SLra {| lra_f := FRate; lra_sel := witness_sel; lra_dur_ns := 60000000000; lra_prefix := None; lra_suffix := None; lra_cmp := None |}.
@@ -651,3 +784,5 @@ Lemma metric_by_outside_guard :
   | None => False
   end.
 Proof. vm_compute. reflexivity. Qed.
+Lemma metric_by_free_is_by_free : script_by_free metric_by_free_example = true /\ script_by_free metric_by_example = false.
+Proof. split; reflexivity. Qed.
